@@ -26,7 +26,10 @@ import (
 
 var (
 	verifDir = envOr("VERIF_DIR", "/verif")
-	repoDir  = envOr("VERIF_REPO", "/repo")
+	// outDir: where evidence/ and replay/ are written (mutation trials redirect it so that the
+	// committed evidence is never overwritten by a run against a modified tree)
+	outDir  = envOr("VERIF_OUT", envOr("VERIF_DIR", "/verif"))
+	repoDir = envOr("VERIF_REPO", "/repo")
 )
 
 // workBase is where journals, worker output and jails live: tmpfs when available (filesystem
@@ -376,9 +379,9 @@ func runCheck(id, tier string) int {
 		fmt.Println("ERROR known_findings.json:", err)
 		return 2
 	}
-	os.MkdirAll(filepath.Join(verifDir, "replay"), 0o755)
+	os.MkdirAll(filepath.Join(outDir, "replay"), 0o755)
 	// remove stale replay files of this property/tier
-	if old, _ := filepath.Glob(filepath.Join(verifDir, "replay", id+"-"+tier+"-*.json")); old != nil {
+	if old, _ := filepath.Glob(filepath.Join(outDir, "replay", id+"-"+tier+"-*.json")); old != nil {
 		for _, o := range old {
 			os.Remove(o)
 		}
@@ -400,7 +403,7 @@ func runCheck(id, tier string) int {
 		if printed[key] > 2 || len(vioLines) >= 20 {
 			continue
 		}
-		path := filepath.Join(verifDir, "replay", fmt.Sprintf("%s-%s-%03d.json", id, tier, len(vioLines)))
+		path := filepath.Join(outDir, "replay", fmt.Sprintf("%s-%s-%03d.json", id, tier, len(vioLines)))
 		rf := map[string]any{"property": id, "tier": tier, "seed": seed, "clause": v.Clause, "sig": v.Sig, "entry": v.Entry, "tags": v.Tags, "detail": v.Detail, "case": v.Case, "shard": v.Shard}
 		b, _ := json.MarshalIndent(rf, "", " ")
 		os.WriteFile(path, b, 0o644)
@@ -469,9 +472,9 @@ func runCheck(id, tier string) int {
 		"wall_s":     time.Since(startT).Seconds(),
 		"violations": unlisted,
 	}
-	os.MkdirAll(filepath.Join(verifDir, "evidence"), 0o755)
+	os.MkdirAll(filepath.Join(outDir, "evidence"), 0o755)
 	b, _ := json.MarshalIndent(ev, "", " ")
-	os.WriteFile(filepath.Join(verifDir, "evidence", id+".json"), b, 0o644)
+	os.WriteFile(filepath.Join(outDir, "evidence", id+".json"), b, 0o644)
 
 	fmt.Printf("%s %s: evaluations=%d distinct_nontrivial=%d cases=%d inconclusive=%d restarts=%d known=%d unlisted_violations=%d wall=%.1fs\n",
 		id, tier, agg.Evaluations, len(distinct), agg.Cases, agg.Inconclusive, restarts, len(kfIDs), unlisted, time.Since(startT).Seconds())
